@@ -116,6 +116,9 @@ def prim_specs():
             js=lambda v: v.isoformat()),
         Spec('dt', lambda: DateTime, _g_dt, lambda v: v.isoformat(),
             js=lambda v: v.isoformat()),
+        # a date with a range facet (xs:minInclusive in the schema)
+        Spec('date_ge', lambda: Date(ge=datetime.date(1900, 1, 1)), _g_date,
+            lambda v: v.isoformat(), js=lambda v: v.isoformat()),
         Spec('time', lambda: Time, _g_time, lambda v: v.isoformat(),
             js=lambda v: v.isoformat()),
         Spec('dur', lambda: Duration,
@@ -130,6 +133,11 @@ def prim_specs():
                                          for _ in range(r.randint(1, 10)))),
             lambda v: base64.b64encode(v).decode('ascii'),
             js=lambda v: base64.b64encode(v).decode('ascii')),
+        Spec('bytes_url', lambda: ByteArray(encoding='urlsafe_base64'),
+            lambda r: bytes(bytearray(r.randint(0, 255)
+                                         for _ in range(r.randint(1, 10)))),
+            lambda v: base64.urlsafe_b64encode(v).decode('ascii'),
+            js=lambda v: base64.urlsafe_b64encode(v).decode('ascii')),
     ]
 
 
@@ -442,6 +450,8 @@ class Universe(object):
         def f_multi(ctx, a):
             ctl.calls.append(('multi', 'enter'))
             ctl.hit('fn', 'multi')
+            if ctl.bad_return:
+                return None         # two values were promised
             return _num(a) + 1, u'm%s' % (a,)
 
         def f_fail(ctx, a):
